@@ -33,10 +33,9 @@ Print Assumptions C12_inv_reachable.
     those of the synchronous twin running the same requests in that order; nothing is left anywhere;
     and the request history is per producer exactly its workload in request order - globally a
     permutation of everything requested (each request exactly once).
-    Hypothesis [args_stable w]: no caller modifies a dict after passing it to add_metadata (without it the
-    statement is false on the unchanged tree, see C12_argument_alias_refuted) - hence "_partial". *)
-Theorem C12_async_refines_sync_partial : forall nrec w s,
-  args_stable w = true ->
+    No hypothesis on the workloads: in particular callers may go on changing a dict after passing it to
+    add_metadata ([AddMetaMut]); since /repo commit ba7c02c the items are copied during the call. *)
+Theorem C12_async_refines_sync : forall nrec w s,
   reach nrec w s -> fl s = Done ->
   map fst (applied s) = enq s /\
   (wstore s, applied s) = run_ops (init_store nrec) (enq s) /\
@@ -45,28 +44,24 @@ Theorem C12_async_refines_sync_partial : forall nrec w s,
   (forall i, issued i (hist s) = nth i w []) /\
   Permutation (map op_of (hist s)) (concat w).
 Proof. exact refines_sync. Qed.
-Print Assumptions C12_async_refines_sync_partial.
+Print Assumptions C12_async_refines_sync.
 
-(** What holds for every workload: exactly once, in enqueue order, nothing left, per-producer order - and the
-    wrapped cassette is that of running the requests one after the other with their arguments as they are
-    when the flusher gets to them ([late_view]). *)
-Theorem C12_async_applies_each_once_in_order : forall nrec w s,
-  reach nrec w s -> fl s = Done ->
-  map fst (applied s) = enq s /\
-  (wstore s, applied s) = run_ops_v late_view (init_store nrec) (enq s) /\
-  buffer s = [] /\ all_done (pending s) = true /\
-  (forall i, issued i (hist s) = nth i w []) /\
-  Permutation (map op_of (hist s)) (concat w).
-Proof. exact refines_late. Qed.
-Print Assumptions C12_async_applies_each_once_in_order.
-
-(** Finding F12 (unchanged tree): A:165 enqueues a closure over the caller's metadata dict itself; a caller that
-    goes on using that dict (d = {..}; rec.add_metadata(d); d[k] = v) gets the later items stored, synchronous
-    recording does not.  Witness: one producer, [add_metadata(d); d[1] = 2; save], flushed after close. *)
+(** Finding F12, repaired by /repo commit ba7c02c; kept as a replayable witness about the pre-fix code
+    ([legacy_run_schedule]: the flusher reads the caller's dict when it runs the operation): one producer,
+    [d = {0:1}; add_metadata(d); d[1] = 2; save], flushed after close - the stored recording differs from
+    synchronous recording of the same requests. *)
 Theorem C12_argument_alias_refuted :
-  exists nrec w s, reach nrec w s /\ fl s = Done /\ wstore s <> sync_apply (init_store nrec) (enq s).
-Proof. exact argument_alias_refuted. Qed.
+  exists nrec w cs s, legacy_run_schedule true cs (init nrec w) = Some s /\ fl s = Done /\
+                      wstore s <> sync_apply (init_store nrec) (enq s).
+Proof. exact legacy_argument_alias. Qed.
 Print Assumptions C12_argument_alias_refuted.
+
+(** the same workload under the same schedule on the current code: stored = synchronous *)
+Theorem C12_argument_alias_repaired :
+  exists s, run_schedule true alias_sched (init 1 alias_work) = Some s /\ fl s = Done /\
+            wstore s = sync_apply (init_store 1) (enq s).
+Proof. exact argument_alias_repaired. Qed.
+Print Assumptions C12_argument_alias_repaired.
 
 (** the interleaving of the flusher and the timer is irrelevant: only the enqueue order matters *)
 Theorem C12_schedule_independent : forall nrec w w' s s',
@@ -77,7 +72,6 @@ Print Assumptions C12_schedule_independent.
 
 (** one caller thread, no request refused at the caller: the stored state is that of running its workload directly *)
 Theorem C12_single_producer : forall nrec l s,
-  args_stable [l] = true ->
   reach nrec [l] s -> fl s = Done -> forallb snd (hist s) = true ->
   wstore s = sync_apply (init_store nrec) (map (fun x => (0, x)) l).
 Proof. exact single_producer. Qed.
@@ -88,7 +82,7 @@ Print Assumptions C12_single_producer.
 Theorem C12_failure_does_not_block : forall nrec w s x r,
   reach nrec w s -> (fl s = Batch (x :: r) \/ fl s = Final (x :: r)) ->
   exists s', step_fn false CExec s = Some s' /\
-             applied s' = applied s ++ [(x, snd (apply_op (wstore s) (late_view (snd x))))] /\
+             applied s' = applied s ++ [(x, snd (apply_op (wstore s) (snd x)))] /\
              inflight (fl s') = r /\
              (forall y r', r = y :: r' -> exists s'', step_fn false CExec s' = Some s'' /\
                                                      map fst (applied s'') = map fst (applied s) ++ [x; y]).
@@ -143,17 +137,18 @@ Print Assumptions C12_runner_sound.
 
 (** * Non-vacuity *)
 
-(** two producers, two recordings, a failing storage call in the middle, a write racing with a save *)
+(** two producers, two recordings, a failing storage call in the middle, a write racing with a save, a metadata
+    dict the caller changes after passing it *)
 Definition ex_work : list (list op) :=
   [ [Op 0 0 (SetData 1%N 10%N) false; Op 1 0 (SetData 2%N 20%N) true; Op 2 0 Save false];
-    [Op 0 1 (AddMeta [(1%N, 5%N)]) false; Op 1 0 (SetData 1%N 11%N) false; Op 2 1 Save false] ].
+    [Op 0 1 (AddMetaMut [(1%N, 5%N)] 2%N 6%N) false; Op 1 0 (SetData 1%N 11%N) false; Op 2 1 Save false] ].
 
 (** a complete run: the flusher works while requests arrive, one operation fails, the next ones still run,
     both recordings end up saved, and all hypotheses of the Done-theorems hold *)
 Example C12_example_complete_run :
   exists s, reach 2 ex_work s /\ fl s = Done /\ length (applied s) = 6 /\
             map snd (applied s) = [true; false; true; true; true; true] /\
-            length (saved (wstore s)) = 2 /\ forallb snd (hist s) = true /\ args_stable ex_work = true.
+            length (saved (wstore s)) = 2 /\ forallb snd (hist s) = true.
 Proof.
   eexists. split.
   - eapply (run_schedule_reach 2 ex_work false
@@ -167,7 +162,7 @@ Qed.
     and both producers still have requests (hypotheses of failure_does_not_block / producers_never_blocked) *)
 Example C12_example_mid_batch :
   exists s x y r, reach 2 ex_work s /\ fl s = Batch (x :: y :: r) /\
-                  snd (apply_op (wstore s) (late_view (snd x))) = false /\
+                  snd (apply_op (wstore s) (snd x)) = false /\
                   nth 0 (pending s) [] <> [] /\ nth 1 (pending s) [] <> [].
 Proof.
   eexists. eexists. eexists. eexists. split.
